@@ -461,8 +461,11 @@ def run_sheps(ctx, quick):
             hist[k] = hist.get(k, 0) + 1
     live_stats = []
     reps = 1 if quick else 4
+    hung = False
     for (env, n, w, h) in live_configs(quick):
         for _ in range(reps):
+            if hung:
+                break                 # one watchdog expiry is enough: the run is a violation already
             case = dict(kind="sheps", mode="live", env=env, hseed=rng.below(1 << 30), cmds=gen_live_script(rng, n, w, h))
             m2, o2, s2 = run_live(exe, drv, case)
             if s2 and (s2["n"], s2["w"], s2["nwa0"]) != (n, w, h):
@@ -471,6 +474,7 @@ def run_sheps(ctx, quick):
             mism += m2
             orc += o2
             live_stats.append(s2)
+            hung = hung or any("crashed or hung" in w_ or "did not come up" in w_ for (w_, _) in m2)
             for l in case["cmds"]:
                 k = l.split()[0]
                 hist["live:" + k] = hist.get("live:" + k, 0) + 1
@@ -484,6 +488,17 @@ def run_sheps(ctx, quick):
              "QT_HWPAR remainders with rand() interposed; enable/disable sequences incl. redundant, rejected and out-of-range calls")
     ctx.assumptions += ["sheps extension: qthread_enable_shepherd(s >= nshepherds) is outside the API contract (the range test is an assert, compiled out; the code would write out of bounds): never issued",
                         "sheps extension: distances of the live runtime are 10 for every pair in this build (QTHREAD_HAVE_HWLOC_DISTS undefined); non-uniform distances are exercised on sort_sheps and on fabricated tables"]
+    ctx.notes += [
+        "sheps extension, outside C07's statement: qthread_distance(src, dest) reads slot dest-1 above the source although shep_dists is indexed by shepherd id "
+        "(qthread_distance(s, s+1) is always 0; theorem C07_distance_constructed_above_refuted; docs/proposed_fixes/C07-distance-index.diff)",
+        "sheps extension: nshepherds_active / nworkers_active move on every accepted call, the flags only when they change: a redundant disable/enable makes "
+        "qthread_num_shepherds()/qthread_num_workers() drift for good (C07_counters_drift, C07_nworkers_active_refuted); the flags, which are all that placement reads, "
+        "do not depend on the counters (C07_switch_flags_independent_of_counters)",
+        "sheps extension: qthread_disable_worker decodes its argument as shep = w % nshepherds, worker = w / nshepherds (the hw_par order of qthread.c:1148), which is NOT "
+        "the packed id qthread_worker() returns (shep * nworkerspershep + worker) whenever both counts exceed 1",
+        "sheps extension, candidate: after qthread_disable_worker(worker 0 of s) the shepherd s is disabled but its queue is only served by its other workers; with one worker "
+        "per shepherd (or all of them disabled) a task spawned to s afterwards is stranded until re-enable instead of being re-routed (qthread_disable_shepherd(s) alone re-routes); "
+        "`task` commands are only generated when the target shepherd and every enabled shepherd has an enabled worker"]
     corr = [("shepherds.c/workers.c/sort_sheps differ from Kernel.Sheps: " + w, r) for (w, r) in mism]
     return pr, corr, orc
 
